@@ -84,6 +84,34 @@ where
 }
 
 type PStack<StorageT> = Vec<StIdx<StorageT>>; // Parse stack
+/// The span of each entry on the parse stack, together with whether any lexeme was derived from
+/// that entry (an empty production, or a production consisting solely of such productions,
+/// derives none).
+pub(super) type SpanStack = Vec<(Span, bool)>;
+
+/// Replace the entries of `spans` from `sym_idx` onwards (i.e. those of the symbols of a production
+/// which is being reduced) with a single entry for the production and return the production's
+/// span. That span starts at the start of the first lexeme the production derived and ends at the
+/// end of the last; a production which derived no lexemes has a zero-length span.
+fn reduce_spans(spans: &mut SpanStack, sym_idx: usize) -> Span {
+    let mut derived = spans[sym_idx..].iter().filter(|(_, d)| *d).map(|(s, _)| *s);
+    let entry = match derived.next() {
+        Some(first) => {
+            let last = derived.last().unwrap_or(first);
+            (Span::new(first.start(), last.end()), true)
+        }
+        None => {
+            let off = match spans.get(sym_idx) {
+                Some((span, _)) => span.start(),
+                None => spans.last().map(|(span, _)| span.end()).unwrap_or(0),
+            };
+            (Span::new(off, off), false)
+        }
+    };
+    spans.truncate(sym_idx);
+    spans.push(entry);
+    entry.0
+}
 type TokenCostFn<'a, StorageT> = &'a (dyn Fn(TIdx<StorageT>) -> u8 + 'a);
 type ActionFn<'a, 'b, 'input, StorageT, LexerTypesT, ActionT, ParamT> = &'a dyn Fn(
     RIdx<StorageT>,
@@ -308,7 +336,7 @@ where
         pstack: &mut PStack<StorageT>,
         astack: &mut Vec<AStackType<LexerTypesT::LexemeT, ActionT>>,
         errors: &mut Vec<LexParseError<StorageT, LexerTypesT>>,
-        spans: &mut Vec<Span>,
+        spans: &mut SpanStack,
     ) -> Option<ActionT> {
         let mut recoverer = None;
         let mut recovery_budget = Duration::from_millis(RECOVERY_TIME_BUDGET);
@@ -326,15 +354,7 @@ where
                     let prior = *pstack.last().unwrap();
                     pstack.push(self.stable.goto(prior, ridx).unwrap());
 
-                    let span = if spans.is_empty() {
-                        Span::new(0, 0)
-                    } else if pop_idx - 1 < spans.len() {
-                        Span::new(spans[pop_idx - 1].start(), spans[spans.len() - 1].end())
-                    } else {
-                        Span::new(spans[spans.len() - 1].start(), spans[spans.len() - 1].end())
-                    };
-                    spans.truncate(pop_idx - 1);
-                    spans.push(span);
+                    let span = reduce_spans(spans, pop_idx - 1);
 
                     let v = AStackType::ActionType(self.actions[usize::from(pidx)](
                         ridx,
@@ -350,7 +370,7 @@ where
                     pstack.push(state_id);
                     astack.push(AStackType::Lexeme(la_lexeme));
 
-                    spans.push(la_lexeme.span());
+                    spans.push((la_lexeme.span(), true));
                     laidx += 1;
                 }
                 Action::Accept => {
@@ -421,7 +441,7 @@ where
         end_laidx: usize,
         pstack: &mut PStack<StorageT>,
         astack: &mut Option<&mut Vec<AStackType<LexerTypesT::LexemeT, ActionT>>>,
-        spans: &mut Option<&mut Vec<Span>>,
+        spans: &mut Option<&mut SpanStack>,
     ) -> usize {
         assert!(lexeme_prefix.is_none() || end_laidx == laidx + 1);
         while laidx != end_laidx && laidx <= self.lexemes.len() {
@@ -438,21 +458,7 @@ where
                     let pop_idx = pstack.len() - self.grm.prod(pidx).len();
                     if let Some(ref mut astack_uw) = *astack {
                         if let Some(ref mut spans_uw) = *spans {
-                            let span = if spans_uw.is_empty() {
-                                Span::new(0, 0)
-                            } else if pop_idx - 1 < spans_uw.len() {
-                                Span::new(
-                                    spans_uw[pop_idx - 1].start(),
-                                    spans_uw[spans_uw.len() - 1].end(),
-                                )
-                            } else {
-                                Span::new(
-                                    spans_uw[spans_uw.len() - 1].start(),
-                                    spans_uw[spans_uw.len() - 1].end(),
-                                )
-                            };
-                            spans_uw.truncate(pop_idx - 1);
-                            spans_uw.push(span);
+                            let span = reduce_spans(spans_uw, pop_idx - 1);
 
                             let v = AStackType::ActionType(self.actions[usize::from(pidx)](
                                 ridx,
@@ -481,7 +487,7 @@ where
                             self.next_lexeme(laidx)
                         };
                         astack_uw.push(AStackType::Lexeme(la_lexeme));
-                        spans_uw.push(la_lexeme.span());
+                        spans_uw.push((la_lexeme.span(), true));
                     }
                     pstack.push(state_id);
                     laidx += 1;
@@ -619,7 +625,7 @@ pub(super) trait Recoverer<
         in_laidx: usize,
         in_pstack: &mut PStack<StorageT>,
         astack: &mut Vec<AStackType<LexerTypesT::LexemeT, ActionT>>,
-        spans: &mut Vec<Span>,
+        spans: &mut SpanStack,
     ) -> (usize, Vec<Vec<ParseRepair<LexerTypesT::LexemeT, StorageT>>>);
 }
 
